@@ -48,6 +48,22 @@ fn bdd_tt(p: BddPtr, nv: usize) -> TT {
     (0..(1usize << nv)).fold(0u64, |acc, a| if bdd_eval(p, a) { acc | (1 << a) } else { acc })
 }
 
+/// truth table of a diagram whose labels are scattered: inv maps a label to the function's variable index
+fn bdd_tt_emb(p: BddPtr, nv: usize, inv: &HashMap<usize, usize>) -> TT {
+    fn ev(p: BddPtr, a: usize, inv: &HashMap<usize, usize>) -> bool {
+        match p {
+            BddPtr::PtrTrue => true,
+            BddPtr::PtrFalse => false,
+            BddPtr::Reg(n) | BddPtr::Compl(n) => {
+                let v = *inv.get(&n.var.value_usize()).expect("a label outside the function's variables");
+                let r = if (a >> v) & 1 == 1 { ev(n.high, a, inv) } else { ev(n.low, a, inv) };
+                if matches!(p, BddPtr::Compl(_)) { !r } else { r }
+            }
+        }
+    }
+    (0..(1usize << nv)).fold(0u64, |acc, a| if ev(p, a, inv) { acc | (1 << a) } else { acc })
+}
+
 /// canonical diagram of a truth table, built through the public get_or_insert only
 fn bdd_build<'a, T: IteTable<'a, BddPtr<'a>> + Default>(
     b: &'a RobddBuilder<'a, T>,
@@ -79,6 +95,39 @@ fn bdd_build<'a, T: IteTable<'a, BddPtr<'a>> + Default>(
     r
 }
 
+/// like bdd_build, with the function's variable i carried by the builder's label emb[i] (a builder over many more
+/// labels than the function mentions: labels >= 64, labels congruent modulo 64, ...)
+fn bdd_build_emb<'a, T: IteTable<'a, BddPtr<'a>> + Default>(
+    b: &'a RobddBuilder<'a, T>,
+    tt: TT,
+    lvl: usize,
+    order: &[usize],
+    nv: usize,
+    emb: &[usize],
+    memo: &mut HashMap<(TT, usize), BddPtr<'a>>,
+) -> BddPtr<'a> {
+    if tt == 0 {
+        return BddPtr::PtrFalse;
+    }
+    if tt == full(nv) {
+        return BddPtr::PtrTrue;
+    }
+    if let Some(p) = memo.get(&(tt, lvl)) {
+        return *p;
+    }
+    let v = order[lvl];
+    let (lo, hi) = (cof(tt, v, false, nv), cof(tt, v, true, nv));
+    let r = if lo == hi {
+        bdd_build_emb(b, lo, lvl + 1, order, nv, emb, memo)
+    } else {
+        let l = bdd_build_emb(b, lo, lvl + 1, order, nv, emb, memo);
+        let h = bdd_build_emb(b, hi, lvl + 1, order, nv, emb, memo);
+        b.get_or_insert(BddNode::new(VarLabel::new_usize(emb[v]), l, h))
+    };
+    memo.insert((tt, lvl), r);
+    r
+}
+
 struct Tally {
     vectors: usize,
     steps: usize,
@@ -91,19 +140,21 @@ fn run_bdd<'a, T: IteTable<'a, BddPtr<'a>> + Default>(
     cfgname: &str,
     order: &[usize],
     nv: usize,
+    emb: &[usize],
     vecs: &[Value],
     t: &mut Tally,
 ) {
+    let inv: HashMap<usize, usize> = emb.iter().enumerate().map(|(i, l)| (*l, i)).collect();
     let mut memo = HashMap::new();
     let mut canon: HashMap<TT, BddPtr<'a>> = HashMap::new();
     for v in vecs {
         let op = v["op"].as_str().unwrap();
-        let f = bdd_build(b, tt_of(&v["f"]), 0, order, nv, &mut memo);
-        let g = bdd_build(b, tt_of(&v["g"]), 0, order, nv, &mut memo);
-        let h = bdd_build(b, tt_of(&v["h"]), 0, order, nv, &mut memo);
+        let f = bdd_build_emb(b, tt_of(&v["f"]), 0, order, nv, emb, &mut memo);
+        let g = bdd_build_emb(b, tt_of(&v["g"]), 0, order, nv, emb, &mut memo);
+        let h = bdd_build_emb(b, tt_of(&v["h"]), 0, order, nv, emb, &mut memo);
         let a: Vec<usize> = v["a"].as_array().unwrap().iter().map(|x| x.as_u64().unwrap() as usize).collect();
         let exp = tt_of(&v["exp"]);
-        let vl = |i: usize| VarLabel::new_usize(i);
+        let vl = |i: usize| VarLabel::new_usize(emb[i]);
         t.steps += 1;
         let r = guarded(|| match op {
             "cond" => b.condition(f, vl(a[0]), a[1] == 1),
@@ -119,7 +170,7 @@ fn run_bdd<'a, T: IteTable<'a, BddPtr<'a>> + Default>(
         });
         let (ok, got) = match r {
             Ok(p) => {
-                let got = bdd_tt(p, nv);
+                let got = bdd_tt_emb(p, nv, &inv);
                 // same function => same pointer, in this long-lived builder (canonicity of results)
                 let c = *canon.entry(got).or_insert(p);
                 (got == exp && c == p, json!(got))
@@ -168,6 +219,7 @@ pub fn replay_bddvec(args: &Args) {
     }
     let mut t = Tally { vectors: vecs.len(), steps: 0, mismatches: 0, bad: vec![] };
     let mut configs = 0;
+    let ident: Vec<usize> = (0..nv).collect();
     for order in &orders {
         for (cache, tcap, ccap) in [("all", 0usize, None), ("lru", 2usize, Some(1usize))] {
             rsdd::verif::set_table_capacity(tcap);
@@ -177,12 +229,38 @@ pub fn replay_bddvec(args: &Args) {
             let name = format!("{cache}/tcap{tcap}");
             if cache == "all" {
                 let b = RobddBuilder::<AllIteTable<BddPtr>>::new(ord);
-                run_bdd(&b, &name, order, nv, &vecs, &mut t);
+                run_bdd(&b, &name, order, nv, &ident, &vecs, &mut t);
             } else {
                 let b = RobddBuilder::<LruIteTable<BddPtr>>::new(ord);
-                run_bdd(&b, &name, order, nv, &vecs, &mut t);
+                run_bdd(&b, &name, order, nv, &ident, &vecs, &mut t);
             }
         }
+    }
+    // a builder over 72 labels in which the function's variables sit on scattered labels (some beyond 63, two of them congruent
+    // modulo 64): every fifth vector
+    {
+        configs += 1;
+        rsdd::verif::set_table_capacity(0);
+        rsdd::verif::set_lru_capacity(None);
+        let nlabels = 72usize;
+        let base = rng.below(8);
+        let mut emb: Vec<usize> = vec![base, base + 64];
+        while emb.len() < nv {
+            let l = rng.below(nlabels);
+            if !emb.contains(&l) {
+                emb.push(l);
+            }
+        }
+        emb.truncate(nv);
+        for k in (1..emb.len()).rev() {
+            emb.swap(k, rng.below(k + 1));
+        }
+        let order = orders[orders.len() - 1].clone();
+        let mut full_order: Vec<usize> = order.iter().map(|v| emb[*v]).collect();
+        full_order.extend((0..nlabels).filter(|l| !emb.contains(l)));
+        let b = RobddBuilder::<AllIteTable<BddPtr>>::new(VarOrder::new(&full_order.iter().map(|v| VarLabel::new_usize(*v)).collect::<Vec<_>>()));
+        let some: Vec<Value> = vecs.iter().step_by(5).cloned().collect();
+        run_bdd(&b, "all/72 scattered labels", &order, nv, &emb, &some, &mut t);
     }
     rsdd::verif::set_table_capacity(0);
     rsdd::verif::set_lru_capacity(None);
@@ -267,17 +345,21 @@ pub fn replay_smoothvec(args: &Args) {
 
 // ---------------------------------------------------------------- marginal MAP / branch and bound (spec/GenMmap.tla)
 
-fn run_mmap<'a, T: IteTable<'a, BddPtr<'a>> + Default>(b: &'a RobddBuilder<'a, T>, cfgname: &str, order: &[usize], nv: usize, vecs: &[Value], t: &mut Tally) {
+fn run_mmap<'a, T: IteTable<'a, BddPtr<'a>> + Default>(b: &'a RobddBuilder<'a, T>, cfgname: &str, order: &[usize], nv: usize, emb: &[usize], nlabels: usize, vecs: &[Value], t: &mut Tally) {
     use rsdd::util::semirings::RealSemiring;
     let mut memo = HashMap::new();
     for v in vecs {
-        let f = bdd_build(b, tt_of(&v["f"]), 0, order, nv, &mut memo);
+        let f = bdd_build_emb(b, tt_of(&v["f"]), 0, order, nv, emb, &mut memo);
         let q: Vec<usize> = v["q"].as_array().unwrap().iter().map(|x| x.as_u64().unwrap() as usize).collect();
-        let qv: Vec<VarLabel> = q.iter().map(|x| VarLabel::new_usize(*x)).collect();
+        let qv: Vec<VarLabel> = q.iter().map(|x| VarLabel::new_usize(emb[*x])).collect();
         let w: Vec<(f64, f64)> = v["w"].as_array().unwrap().iter().map(|p| (p[0][0].as_f64().unwrap() / 8.0, p[1][0].as_f64().unwrap() / 8.0)).collect();
-        let params = rsdd::repr::WmcParams::<RealSemiring>::new(HashMap::from_iter(
-            w.iter().enumerate().map(|(i, (l, h))| (VarLabel::new_usize(i), (RealSemiring(*l), RealSemiring(*h)))),
-        ));
+        // labels the function does not mention carry normalised weights
+        let mut wm: HashMap<VarLabel, (RealSemiring, RealSemiring)> = (0..nlabels).map(|l| (VarLabel::new_usize(l), (RealSemiring(0.5), RealSemiring(0.5)))).collect();
+        for (i, (l, h)) in w.iter().enumerate() {
+            wm.insert(VarLabel::new_usize(emb[i]), (RealSemiring(*l), RealSemiring(*h)));
+        }
+        let params = rsdd::repr::WmcParams::<RealSemiring>::new(wm);
+        let nv_builder = nlabels;
         let scores: Vec<f64> = v["scores"].as_array().unwrap().iter().map(|x| x.as_f64().unwrap()).collect();
         let opt = v["opt"].as_f64().unwrap();
         let scale = 8f64.powi(nv as i32);
@@ -285,10 +367,10 @@ fn run_mmap<'a, T: IteTable<'a, BddPtr<'a>> + Default>(b: &'a RobddBuilder<'a, T
             t.steps += 1;
             let r = guarded(|| {
                 if which == "bb" {
-                    let (val, m) = f.bb(&qv, nv, &params);
+                    let (val, m) = f.bb(&qv, nv_builder, &params);
                     (val.0, m)
                 } else {
-                    f.marginal_map(&qv, nv, &params)
+                    f.marginal_map(&qv, nv_builder, &params)
                 }
             });
             let (ok, got) = match r {
@@ -297,18 +379,19 @@ fn run_mmap<'a, T: IteTable<'a, BddPtr<'a>> + Default>(b: &'a RobddBuilder<'a, T
                     let mut bits = 0usize;
                     let mut shape_ok = true;
                     for (k, x) in q.iter().enumerate() {
-                        match m.get(VarLabel::new_usize(*x)) {
+                        match m.get(VarLabel::new_usize(emb[*x])) {
                             Some(true) => bits |= 1 << k,
                             Some(false) => {}
                             None => shape_ok = false,
                         }
                     }
-                    for x in 0..nv {
-                        if !q.contains(&x) && m.get(VarLabel::new_usize(x)).is_some() {
+                    let qlabels: Vec<usize> = q.iter().map(|x| emb[*x]).collect();
+                    for l in 0..nlabels {
+                        if !qlabels.contains(&l) && m.get(VarLabel::new_usize(l)).is_some() {
                             shape_ok = false;
                         }
                     }
-                    (shape_ok && val * scale == opt && scores[bits] == opt, json!({"value_x8^n": val * scale, "assignment_bits": bits, "call": which}))
+                    (shape_ok && val * scale == opt && scores[bits] == opt, json!({"value_x8^n": val * scale, "assignment_bits": bits, "call": which, "labels": emb}))
                 }
                 Err(m) => (false, json!({"panic": m, "call": which})),
             };
@@ -331,6 +414,7 @@ pub fn replay_mmapvec(args: &Args) {
     let orders: Vec<Vec<usize>> = vec![(0..nv).collect(), (0..nv).rev().collect(), rng.perm(nv)];
     let mut t = Tally { vectors: vecs.len(), steps: 0, mismatches: 0, bad: vec![] };
     let mut configs = 0;
+    let ident: Vec<usize> = (0..nv).collect();
     for (i, order) in orders.iter().enumerate() {
         let (tcap, ccap) = if i == 1 { (2usize, Some(1usize)) } else { (0, None) };
         rsdd::verif::set_table_capacity(tcap);
@@ -339,11 +423,37 @@ pub fn replay_mmapvec(args: &Args) {
         let ord = VarOrder::new(&order.iter().map(|v| VarLabel::new_usize(*v)).collect::<Vec<_>>());
         if i == 1 {
             let b = RobddBuilder::<LruIteTable<BddPtr>>::new(ord);
-            run_mmap(&b, "lru/tcap2", order, nv, &vecs, &mut t);
+            run_mmap(&b, "lru/tcap2", order, nv, &ident, nv, &vecs, &mut t);
         } else {
             let b = RobddBuilder::<AllIteTable<BddPtr>>::new(ord);
-            run_mmap(&b, "all/tcap0", order, nv, &vecs, &mut t);
+            run_mmap(&b, "all/tcap0", order, nv, &ident, nv, &vecs, &mut t);
         }
+    }
+    // the same functions in a builder over 72 labels: the function's variables sit on scattered labels, some beyond 63 and
+    // congruent modulo 64 to another one (packed bit sets, truncated labels); every third vector
+    {
+        configs += 1;
+        rsdd::verif::set_table_capacity(0);
+        rsdd::verif::set_lru_capacity(None);
+        let nlabels = 72usize;
+        let base = rng.below(8);
+        let mut emb: Vec<usize> = vec![base, base + 64];
+        while emb.len() < nv {
+            let l = rng.below(nlabels);
+            if !emb.contains(&l) {
+                emb.push(l);
+            }
+        }
+        emb.truncate(nv);
+        for k in (1..emb.len()).rev() {
+            emb.swap(k, rng.below(k + 1));
+        }
+        let order = &orders[2];
+        let mut full_order: Vec<usize> = order.iter().map(|v| emb[*v]).collect();
+        full_order.extend((0..nlabels).filter(|l| !emb.contains(l)));
+        let b = RobddBuilder::<AllIteTable<BddPtr>>::new(VarOrder::new(&full_order.iter().map(|v| VarLabel::new_usize(*v)).collect::<Vec<_>>()));
+        let some: Vec<Value> = vecs.iter().step_by(3).cloned().collect();
+        run_mmap(&b, "72 labels, scattered", order, nv, &emb, nlabels, &some, &mut t);
     }
     rsdd::verif::set_table_capacity(0);
     rsdd::verif::set_lru_capacity(None);
